@@ -53,11 +53,19 @@ type vrtUser struct {
 // the properties that do not talk about the attribute list) only the e-mail
 // address and the user name may be unset; the other standard attributes are set.
 func vrtNewUser(prefix string, full bool, maxCustom, maxValues int) *vrtUser {
+	return vrtNewUserMode(prefix, full, false, maxCustom, maxValues)
+}
+
+// vrtNewUserMode: with sparse == true (profile of the attribute-query filter)
+// the standard attributes other than e-mail and user name are unset.
+func vrtNewUserMode(prefix string, full, sparse bool, maxCustom, maxValues int) *vrtUser {
 	u := &vrtUser{
 		email: vrtStr(prefix + ".email"), fullName: vrtStr(prefix + ".fullName"), givenName: vrtStr(prefix + ".givenName"),
 		surname: vrtStr(prefix + ".surname"), userID: vrtStr(prefix + ".userID"), username: vrtStr(prefix + ".username"),
 	}
-	if !full {
+	if sparse && !full {
+		u.fullName, u.givenName, u.surname, u.userID = "", "", "", ""
+	} else if !full {
 		vrtAssume(u.fullName != "")
 		vrtAssume(u.givenName != "")
 		vrtAssume(u.surname != "")
@@ -264,6 +272,10 @@ const vrtIssuer = "https://idp.example.test"
 // vrtConfWant is the WantAuthRequestsSigned value of the provider under test.
 var vrtConfWant string
 
+// vrtNominalSigAlg: the configured signature algorithm is rsa-sha1 or
+// rsa-sha256 instead of an arbitrary string.
+var vrtNominalSigAlg bool
+
 // vrtNewProvider builds a provider through the public constructor: static
 // issuer, default endpoints, symbolic signature algorithm and signing wish.
 func vrtNewProvider(st *vrtStore) *Provider { return vrtNewProviderWith(st, true) }
@@ -276,9 +288,15 @@ func vrtNewProviderWith(st *vrtStore, symbolicWant bool) *Provider {
 		want = vrtStr("conf.wantAuthRequestsSigned")
 	}
 	vrtConfWant = want
+	vrtConfWantMD = want
+	alg := vrtStr("conf.signatureAlgorithm")
+	if vrtNominalSigAlg {
+		// nominal: one of the two algorithms the property names
+		alg = vrtIteStr(vrtBool("conf.sha1"), vrtRSASHA1, vrtRSASHA256)
+	}
 	conf := &Config{
 		IDPConfig: &IdentityProviderConfig{
-			SignatureAlgorithm:     vrtStr("conf.signatureAlgorithm"),
+			SignatureAlgorithm:     alg,
 			WantAuthRequestsSigned: want,
 		},
 	}
